@@ -63,6 +63,12 @@ def same(a, b):
         return a.key() == b.key() and ((a.off is None and b.off is None) or (a.off is not None and b.off is not None and same(a.off, b.off)))
     if isinstance(a, Opaque) and isinstance(b, Opaque):
         return a.tag == b.tag
+    if isinstance(a, Array) and isinstance(b, Array):
+        if a.length != b.length or set(a.elems) != set(b.elems):
+            return False
+        if (a.default is None) != (b.default is None) or (a.default is not None and not same(a.default, b.default)):
+            return False
+        return all(same(a.elems[k][1], b.elems[k][1]) for k in a.elems)
     return False
 
 
@@ -106,10 +112,27 @@ def eval_bits(bits, env):
     return out
 
 
+def eval_bv(v, env):
+    """concrete value of a BV under a full assignment; falls back to the affine form when bits were lost to carries"""
+    r = eval_bits(v.bits, env)
+    if r is not None or v.aff is None:
+        return r
+    tot = v.aff.const
+    for (s, lo, hi), c in v.aff.terms.items():
+        x = 0
+        for i in range(lo, hi):
+            b = env.get((s, i))
+            if b not in (0, 1):
+                return None
+            x |= b << (i - lo)
+        tot += c * x
+    return tot % (1 << v.w)
+
+
 def eval_value(v, env):
     """concrete python form of an abstract value under a full assignment of its symbols (None if not determined)"""
     if isinstance(v, BV):
-        return eval_bits(v.bits, env)
+        return eval_bv(v, env)
     if isinstance(v, Struct):
         if not v.fields:
             return ()
